@@ -419,10 +419,11 @@ func (x *Extractor) cacheGet(key extractorKey) (any, bool) {
 }
 
 // cacheStoreOrLoad publishes res under every reference in refs and returns res.
-// If the first reference is already cached — another goroutine decoded the same
-// object concurrently — it stores nothing and returns the existing value, so
-// every caller ends up with one shared object. The first writer for a reference
-// wins; later racers adopt its result and discard their own.
+// If one of the references is already cached — another goroutine decoded the
+// same object concurrently — it returns the existing value instead (publishing
+// it under the references that are still missing), so every caller ends up
+// with one shared object. The first writer for a reference wins; later racers
+// adopt its result and discard their own.
 //
 // Publishing this way (rather than waiting on an in-flight marker) keeps decode
 // deadlock-free: two goroutines decoding mutually-referential objects never wait
@@ -430,11 +431,20 @@ func (x *Extractor) cacheGet(key extractorKey) (any, bool) {
 func (x *Extractor) cacheStoreOrLoad(refs []Reference, tp reflect.Type, res any) any {
 	x.mu.Lock()
 	defer x.mu.Unlock()
-	if v, ok := x.cache[extractorKey{ref: refs[0], tp: tp}]; ok {
-		return v
+	// Any reference of the chain may have been published in the meantime
+	// (a concurrent decode may have entered the chain further down); the
+	// value closest to the object wins and is never overwritten.
+	for i := len(refs) - 1; i >= 0; i-- {
+		if v, ok := x.cache[extractorKey{ref: refs[i], tp: tp}]; ok {
+			res = v
+			break
+		}
 	}
 	for _, ref := range refs {
-		x.cache[extractorKey{ref: ref, tp: tp}] = res
+		key := extractorKey{ref: ref, tp: tp}
+		if _, ok := x.cache[key]; !ok {
+			x.cache[key] = res
+		}
 	}
 	return res
 }
